@@ -129,11 +129,11 @@ func V4MacroVector(c V4Class) (eq [6]int) {
 
 // groups of metrics whose severity distance is taken together.
 var v4Groups = [5][]int{
-	{V4AV, V4PR, V4UI},                         // EQ1
-	{V4AC, V4AT},                               // EQ2
-	{V4VC, V4VI, V4VA, V4CR, V4IR, V4AR},       // EQ3+EQ6
-	{V4SC, V4SI, V4SA},                         // EQ4
-	{V4E},                                      // EQ5
+	{V4AV, V4PR, V4UI},                   // EQ1
+	{V4AC, V4AT},                         // EQ2
+	{V4VC, V4VI, V4VA, V4CR, V4IR, V4AR}, // EQ3+EQ6
+	{V4SC, V4SI, V4SA},                   // EQ4
+	{V4E},                                // EQ5
 }
 
 type v4Level struct {
@@ -143,7 +143,7 @@ type v4Level struct {
 }
 
 type v4Model struct {
-	levels [5]map[int]*v4Level // group -> level key -> data ; key = eq (or eq3*2+eq6 for group 2)
+	levels [5]map[int]*v4Level   // group -> level key -> data ; key = eq (or eq3*2+eq6 for group 2)
 	lookup [3][2][3][3][3][2]int // tenths, -1 when the MacroVector does not exist
 }
 
